@@ -69,6 +69,17 @@ class C17(Prop):
                 w = chk(name, n, got, want)
                 if w:
                     return w, n_eval
+        # explicit ranges: the same under every setting of the implicit-range flags (M, m, Ṁ move ctx.range_start / range_end)
+        for rs, re_ in ((1, 1), (0, 1), (1, 0), (0, 0)):
+            c2 = Context()
+            c2.range_start, c2.range_end = rs, re_
+            for n in list(range(0, 40)) + [100, 257]:
+                n_eval += 1
+                for name, fn, want in [("range 1..n", el.inclusive_one_range, list(range(1, n + 1))), ("range 0..n", el.inclusive_zero_range, list(range(0, n + 1))),
+                                       ("range 1..n-1", el.exclusive_one_range, list(range(1, n))), ("range 0..n-1", el.exclusive_zero_range, list(range(0, n)))]:
+                    w = chk(f"{name} (range_start={rs}, range_end={re_})", n, simp(fn(n, c2)), want)
+                    if w:
+                        return w, n_eval
         lim = 60 if tier != "thorough" else 300
         for a in range(0, lim):
             for b in range(0, lim):
